@@ -652,6 +652,8 @@ def find_and_write(pid, viol, repo, tier, seed):
     found, note, n = search(pid, repo, tier, seed)
     out = []
     for k, (name, u, d) in enumerate(viol):
+        if u == "bounded" and isinstance(d, dict) and d.get("model"):
+            found = d["model"]
         path = os.path.join(ROOT, "replay", "out", "%s-%s-%d.json" % (pid, str(u).replace(":", "_"), k))
         rec = {"property": pid, "obligation": name,
                "verifier_output": (d.get("rendered") if isinstance(d, dict) else None) or (d.get("detail") if isinstance(d, dict) else None) or str(d),
